@@ -82,7 +82,12 @@ func c26Loop(r *core.Run, p *core.Prog) {
 		}
 		if cond != nil {
 			if b, ok := core.BinOp(n.(ast.Expr), token.LSS); ok && strings.Contains(strings.ToLower(core.Str(b.X)), "timestamp") && strings.Contains(strings.ToLower(core.Str(b.Y)), "timestamp") {
-				out = append(out, ev{label: map[bool]string{true: "time-regression", false: "time-ok"}[*cond]})
+				// the high-water mark must be one scalar for the whole input (not kept per interface / per key)
+				if o := core.ObjOf(info, b.Y); o != nil && o.Pos() < loop.Pos() {
+					out = append(out, ev{label: map[bool]string{true: "time-regression", false: "time-ok"}[*cond]})
+				} else {
+					out = append(out, ev{label: "partial-time-test"})
+				}
 			}
 		}
 		if _, ok := n.(*ast.ReturnStmt); ok {
@@ -138,6 +143,11 @@ func c26Loop(r *core.Run, p *core.Prog) {
 	for _, t := range ts {
 		if t.has("insert") && t.has("time-ok") {
 			sawGuard = true
+		}
+	}
+	for _, t := range ts {
+		if t.has("partial-time-test") && bReg == "" {
+			bReg = "the timestamp of a row is compared with a mark that is re-derived per row (per interface / per key) instead of the single high-water mark of the input: a file whose time goes backwards between rows of different interfaces is accepted: " + pathLines(p, g, t.path)
 		}
 	}
 	r.Check("guard-before-insert", "Import:time-regression-rejected", p.Rel(loop.Pos()), bReg == "" && sawGuard, orStr(bReg, "no `timestamp < currentTimestamp` test on the way to the insertion"))
